@@ -803,6 +803,38 @@ def prog_sql(seed: int, n_ops: int = 8, *, sorts: float = 1.0, selfjoin: float =
                       g.cols[cur])
         observed.append(cur)
     if rng.random() < 0.12:
+        # scenario: two consecutive sorts by different columns (the later one takes precedence, the earlier one breaks
+        # its ties), then a slice that makes the order observable
+        cs = sorted(rng.sample(BASE_COLS, 2))
+        base = g.leaf("e0", cols=cs, nrows=4)
+        first, second = (cs[0], cs[1]) if rng.random() < 0.5 else (cs[1], cs[0])
+        cur = g.apply(base, ["sort", ["term", ["ref", first], rng.choice(["asc", "desc"])]], g.cols[base])
+        cur = g.apply(cur, ["sort", ["term", ["ref", second], rng.choice(["asc", "desc"])]], g.cols[cur])
+        observed.append(cur)
+        a = rng.choice([0, 0, 1])
+        observed.append(g.apply(cur, ["slice", a, a + rng.choice([1, 2]), "-"], g.cols[cur]))
+    if rng.random() < 0.12:
+        # scenario: a sort by a column that a projection then drops together with another column, followed by an
+        # operation that has to be nested over the Select (a calculation re-creating the hidden tag, a selection /
+        # calculation after a deduplication): the sort must not be lifted to a level that no longer has its column
+        cs = sorted(rng.sample(BASE_COLS, 3))
+        base = g.leaf("e0", cols=cs, nrows=rng.choice([2, 3, 4]))
+        key, hidden, keep = rng.sample(cs, 3)
+        cur = g.apply(base, ["sort", ["term", ["ref", key], rng.choice(["asc", "desc"])]], g.cols[base])
+        if rng.random() < 0.3:
+            cur = g.apply(cur, ["slice", 0, rng.choice([2, 3]), "-"], g.cols[cur])
+        cur = g.apply(cur, ["proj", keep], frozenset([keep]))
+        if rng.random() < 0.3:
+            cur = g.apply(cur, ["dedup"], g.cols[cur])
+        observed.append(cur)
+        last = rng.random()
+        if last < 0.6:
+            observed.append(g.apply(cur, ["calc", hidden, ["fn", "neg", "*", ["ref", keep]]], g.cols[cur] | {hidden}))
+        elif last < 0.8:
+            observed.append(g.apply(cur, ["sel", g.pred(g.cols[cur], 1)], g.cols[cur]))
+        else:
+            observed.append(g.apply(cur, ["calc", key, ["fn", "add", "*", ["ref", keep], ["lit", 1]]], g.cols[cur] | {key}))
+    if rng.random() < 0.12:
         # scenario: a zero-column "guard" relation (project onto nothing, deduplicate) joined to a table
         base = g.leaf("e0", nrows=rng.choice([0, 0, 1, 2]), bounds=rng.choice(["loose", "unbounded", "zero-min"]))
         if rng.random() < 0.5 and g.cols[base]:
@@ -1022,6 +1054,49 @@ def prog_multi(seed: int, n_ops: int = 8, *, three: float = 0.3, prefs: float = 
         plain = g.apply(cur, ["proj", *want], frozenset(want))
         pr = g.apply(cur, ["proj", *want], frozenset(want), g.opts(src_e, True, rng.random() < 0.4, False))
         observed += [plain, pr]
+    if rng.random() < 0.12:
+        # scenario: a materialization over an OPERATION whose (re-processed) target reports "was materialized": a
+        # materialization directly after a transfer, or a chain pruned to a payload-holding operand.  The outer
+        # materialization must still get its own payload (its rows are not the inner one's)
+        eng_ = rng.choice(engines)
+        other_ = rng.choice([e for e in engines if e != eng_])
+        cs = sorted(rng.sample(["a", "b", "d"], rng.choice([1, 2])))
+        if rng.random() < 0.55:
+            inner = g.mat(g.transfer(g.leaf(other_, cols=cs, nrows=rng.choice([2, 3, 4])), eng_))
+        else:
+            lf = g.leaf(eng_, cols=cs, nrows=rng.choice([2, 3, 4]))
+            dm = g.doomed(eng_, cols=cs)
+            inner = g.chain(lf, dm) if rng.random() < 0.5 else g.chain(dm, lf)
+        op, nc = g.rand_op(g.cols[inner], allow=("sel", "calc", "sel"))
+        outer = g.mat(g.apply(inner, op, nc))
+        observed.append(outer)
+        if rng.random() < 0.5 and g.cols[outer]:
+            op2, nc2 = g.rand_op(g.cols[outer], allow=("sel", "proj"))
+            observed.append(g.apply(outer, op2, nc2))
+    if rng.random() < 0.1:
+        # scenario: an operation whose expression only ONE engine family supports, requested with a preferred engine
+        # of that family from a relation of the other family, under every backtrack / transfer / require combination,
+        # sometimes with a slice or a materialization in the way of back-tracking: wherever the operation lands, its
+        # engine must support it - otherwise the call raises
+        t = g.pick(pred=lambda x: bool(g.cols[x]))
+        if t is not None:
+            otherk = "sql" if g.kind[g.eng[t]] == "iter" else "iter"
+            prefs_ = [e for e in engines if g.kind[e] == otherk]
+            if prefs_:
+                if rng.random() < 0.5:
+                    t = g.apply(t, ["slice", rng.choice([0, 1]), rng.choice(["-", 3]), "-"], g.cols[t]) \
+                        if rng.random() < 0.6 else g.mat(t)
+                e = ["fn", "o:special", otherk, ["ref", rng.choice(sorted(g.cols[t]))]]
+                tagc = [x for x in NEW_TAGS if x not in g.cols[t]]
+                kind_ = rng.choice(["sel", "sel", "sort", "calc"])
+                if kind_ == "calc" and tagc:
+                    op_ = ["calc", tagc[0], e]
+                elif kind_ == "sort":
+                    op_ = ["sort", ["term", e, "asc"]]
+                else:
+                    op_ = ["sel", ["pfn", "lt", "*", e, ["lit", 1]]]
+                g.emit(["apply", g.fresh(), t, op_, g.opts(rng.choice(prefs_), rng.random() < 0.7, rng.random() < 0.4,
+                                                            rng.random() < 0.3)])
     if rng.random() < 0.1:
         # scenario: a materialization INSIDE the database that already holds a payload (an earlier `process` attached it) is
         # used again - as an operand of a join or a chain with a relation transferred into the database, or under another
